@@ -17,10 +17,10 @@ for pid in sorted(PROPS):
     p = PROPS[pid]
     checks.append({
         "property_id": pid,
-        "quick_cmd": f"python3 tools/check.py {pid} --tier quick",
-        "thorough_cmd": f"python3 tools/check.py {pid} --tier thorough",
+        "quick_cmd": p.get("quick_cmd", f"python3 tools/check.py {pid} --tier quick"),
+        "thorough_cmd": p.get("thorough_cmd", f"python3 tools/check.py {pid} --tier thorough"),
         "evidence_file": f"/verif/evidence/{pid}.json",
-        "replay_cmd_template": "python3 tools/check.py replay {path}",
+        "replay_cmd_template": p.get("replay_cmd_template", "python3 tools/check.py replay {path}"),
         "engine": "tlc+vrt",
         "level_claimed": {"category": "model_checking", "text": p["level_text"], "design_ref": p.get("design_ref", "DESIGN.md §10")},
         "level_note": p.get("level_note", "Trusted: TLC/SANY/pcal, gcc's tsan instrumentation pass as event source, the vrt runtime and drivers, the projection MemAt of each module; exhaustive only for the stated small constants, x86-TSO, kernel semantics of eventfd/epoll/AF_UNIX."),
